@@ -866,7 +866,11 @@ func (r *runningStep) provideEnablingInput(input map[string]any) error {
 	// Check to make sure it's enabled.
 	// This is an optional field, so no input means enabled.
 	enabled := input["enabled"] == nil || input["enabled"] == true
+	// Make sure we transition the state before unlocking so there are no race conditions.
 	r.enabledInputAvailable = true
+	if r.state == step.RunningStepStateWaitingForInput && r.currentStage == StageIDEnabling {
+		r.state = step.RunningStepStateRunning
+	}
 	r.enabledInput <- enabled
 	return nil
 }
@@ -899,6 +903,9 @@ func (r *runningStep) provideStartingInput(input map[string]any) error {
 
 	// Make sure we transition the state before unlocking so there are no race conditions.
 	r.runInputAvailable = true
+	if r.state == step.RunningStepStateWaitingForInput && r.currentStage == StageIDStarting {
+		r.state = step.RunningStepStateRunning
+	}
 
 	// Unlock before passing the data over the channel to prevent a deadlock.
 	// The other end of the channel needs to be unlocked to read the data.
@@ -1143,9 +1150,11 @@ func (r *runningStep) deployStage() (deployer.Plugin, bool, error) {
 		r.state = step.RunningStepStateRunning
 		r.lock.Unlock()
 	default: // Default, so it doesn't block on this receive
-		// It's waiting now.
+		// It's waiting now, unless the input arrived in the meantime.
 		r.lock.Lock()
-		r.state = step.RunningStepStateWaitingForInput
+		if !r.deployInputAvailable {
+			r.state = step.RunningStepStateWaitingForInput
+		}
 		r.lock.Unlock()
 		select {
 		case deployerConfig = <-r.deployInput:
@@ -1185,7 +1194,11 @@ func (r *runningStep) enableStage() (bool, bool) {
 	previousStage := string(r.currentStage)
 	r.currentStage = StageIDEnabling
 	enabledInputAvailable := r.enabledInputAvailable
-	r.state = step.RunningStepStateWaitingForInput
+	if enabledInputAvailable {
+		r.state = step.RunningStepStateRunning
+	} else {
+		r.state = step.RunningStepStateWaitingForInput
+	}
 	r.lock.Unlock()
 
 	r.stageChangeHandler.OnStageChange(
@@ -1246,6 +1259,15 @@ func (r *runningStep) startStage(container deployer.Plugin) (bool, int64, error)
 		&enabledOutput,
 	)
 
+	if !inputReceivedEarly {
+		// The input may have arrived between the non-blocking receive above and the transition.
+		r.lock.Lock()
+		if r.runInputAvailable {
+			r.state = step.RunningStepStateRunning
+		}
+		r.lock.Unlock()
+	}
+
 	// A stop condition or close request that arrived before the step started wins over the run
 	// input, even if both are available by now (select picks among ready cases at random).
 	select {
@@ -1261,7 +1283,7 @@ func (r *runningStep) startStage(container deployer.Plugin) (bool, int64, error)
 	if !inputReceivedEarly {
 		// Input is not yet available. Now waiting.
 		r.lock.Lock()
-		if r.state != step.RunningStepStateWaitingForInput {
+		if r.state != step.RunningStepStateWaitingForInput && !r.runInputAvailable {
 			r.logger.Warningf("State not waiting for input when receiving from channel.")
 		}
 		r.lock.Unlock()
